@@ -46,6 +46,12 @@ Theorem C16_hidden_not_in_description_partial : forall perm c D F,
 Proof. exact hidden_not_in_description_partial. Qed.
 Print Assumptions C16_hidden_not_in_description_partial.
 
+(* the regenerated DataclassWrapper.description follows the documented precedence for every input *)
+Theorem C16_description_rule : forall m b a i cd d sh fd hg,
+  description_gen m b a i cd d sh fd hg = spec_description m b a i cd d sh fd hg.
+Proof. exact description_gen_rule. Qed.
+Print Assumptions C16_description_rule.
+
 (* the default shown is the effective default: the definition's, overridden by what a default instance / set_defaults /
    a config file installed (D; their layering is C06) - also when that value is falsy (0, 0.0, False, "", []): the proof
    uses the regenerated test at the head of FieldWrapper.default (`self._default is not None`).  Side condition: the help text is empty or not blank. *)
